@@ -1,6 +1,8 @@
 import CLModel.Proto
 import CLModel.Checks.Dtd
 import CLModel.Checks.XmlContent
+import CLModel.Checks.DtdState
+import CLModel.Checks.DtdNamed
 namespace Ops.C07
 open Proto Dtd
 
@@ -110,6 +112,84 @@ def opWfValue (toks : List String) : String :=
     | _, _ => "bad-args"
   | _ => "bad-args"
 
+/-! ### round 4: one checker instance over a sequence of entity pairs -/
+
+def parseEnts : Nat → List String → Option (List (Ent × Ent) × List String)
+  | 0, rest => some ([], rest)
+  | k + 1, rk :: ra :: rv :: lk :: la :: lv :: rest => do
+    let rk ← parseText rk
+    let ra ← parseText ra
+    let rv ← parseText rv
+    let lk ← parseText lk
+    let la ← parseText la
+    let lv ← parseText lv
+    let (ps, rest') ← parseEnts k rest
+    pure ((⟨rk, ra, rv⟩, ⟨lk, la, lv⟩) :: ps, rest')
+  | _, _ => none
+
+def parseTable : Nat → List String → Option (List (Bytes × ParseRes))
+  | 0, [] => some []
+  | 0, _ => none
+  | k + 1, d :: l :: c :: m :: t :: rest => do
+    let d ← parseText d
+    let vs ← parseVerdicts [l, c, m, t]
+    let tl ← parseTable k rest
+    match vs with
+    | [v] => pure ((d, v) :: tl)
+    | _ => none
+  | _, _ => none
+
+def showState (st : DtdState.State) : String :=
+  let known := match st.known with
+    | none => "X"
+    | some ks => " ".intercalate (toString ks.length :: ks.map showText)
+  s!"known={known} text={showText st.textcontent} css={if st.cssCompiled then 1 else 0}"
+
+/-- c07.seq <android 0|1> <hasRef 0|1> <text0> <n> <refval>*n <k> (<rkey> <rall> <rval> <lkey> <lall> <lval>)*k
+            <nv> (<doc> <line|-> <col> <msg> <text>)*nv
+    one `DTDChecker` (`__init__`, `set_reference` if hasRef), then `check` per pair: verdicts and state after each -/
+def opSeq (toks : List String) : String :=
+  match toks with
+  | a :: r :: t0 :: n :: rest =>
+    match parseText t0, parseNat n with
+    | some t0, some n =>
+      match (rest.take n).mapM parseText, rest.drop n with
+      | some vals, k :: rest1 =>
+        match parseNat k with
+        | some k =>
+          match parseEnts k rest1 with
+          | some (pairs, nv :: rest2) =>
+            match parseNat nv with
+            | some nv =>
+              match parseTable nv rest2 with
+              | some tbl =>
+                let st0 := DtdState.init (a == "1") t0
+                let st1 := if r == "1" then DtdState.setReference st0 vals else st0
+                let outs := DtdState.runSeq (tableParse tbl) st1 pairs
+                " || ".intercalate (outs.map (fun so => showOut so.2 ++ " # " ++ showState so.1))
+              | none => "bad-args"
+            | none => "bad-args"
+          | _ => "bad-args"
+        | none => "bad-args"
+      | _, _ => "bad-args"
+    | _, _ => "bad-args"
+  | _ => "bad-args"
+
+/-- c07.uescape <k> <known name>*k <val> : `DTDChecker.unicode_escape(val)` — "fine" or "error <pos> <reason>" -/
+def opUEscape (toks : List String) : String :=
+  match parseNames toks with
+  | some (names, [v]) =>
+    match parseText v with
+    | some v =>
+      (match DtdNamed.unicodeEscapeN (fun nm => names.contains nm) v with
+       | some .fine => "fine"
+       | some (.error n reason) => s!"error {n} {showText reason}"
+       | some .unsupported => "unsupported"
+       | none => "encode-error")
+    | none => "bad-args"
+  | _ => "bad-args"
+
 def ops : List (String × (List String → String)) :=
-  [("dtd.docs", opDocs), ("dtd.check", opCheck), ("dtd.wf", opDtdWf), ("xml.wf", opWf), ("xml.wfvalue", opWfValue)]
+  [("dtd.docs", opDocs), ("dtd.check", opCheck), ("dtd.wf", opDtdWf), ("xml.wf", opWf), ("xml.wfvalue", opWfValue),
+   ("c07.seq", opSeq), ("c07.uescape", opUEscape)]
 end Ops.C07
